@@ -198,7 +198,7 @@ def boson_search(chk, n_cases):
         if 3 <= it <= 5:
             ck, T, corr = "scan-" + scan_kind, sT, scan[it - 3]
         elif ck == "power":
-            corr = oqupy.PowerLawSD(alpha=rng.choice([0.05, 0.2, 0.5]), zeta=rng.choice([0.5, 1, 2, 3]), cutoff=rng.choice([1.0, 3.0]),
+            corr = oqupy.PowerLawSD(alpha=rng.choice([0.05, 0.2, 0.5]), zeta=rng.choice([0.5, 1, 1.5, 2, 3]), cutoff=rng.choice([1.0, 3.0]),
                                     cutoff_type=rng.choice(["hard", "exponential", "gaussian"]), temperature=T)
         elif ck == "customsd":
             corr = oqupy.CustomSD(lambda w: 0.15 * w ** 2 / (1 + w), cutoff=2.0, cutoff_type="gaussian", temperature=T)
